@@ -1513,6 +1513,38 @@ StylesheetHandler::endElement(const XMLCh* const    /* name */)
     {
         m_inTemplate = false;
     }
+    else if (StylesheetConstructionContext::ELEMNAME_TEXT == tok &&
+             m_inTemplate == true &&
+             m_elemStack.empty() == false)
+    {
+        // The text of an xsl:text element becomes a child of the parent of
+        // the element, so an empty xsl:text element leaves nothing behind.
+        // A variable or parameter, however, has a result tree fragment as
+        // its value, rather than the empty string, as soon as it has any
+        // content, so an empty text node stands for the xsl:text element...
+        ElemTemplateElement* const  parent = m_elemStack.back();
+        assert(parent != 0);
+
+        const int   parentTok = parent->getXSLToken();
+
+        if (parent->hasChildren() == false &&
+            (StylesheetConstructionContext::ELEMNAME_VARIABLE == parentTok ||
+             StylesheetConstructionContext::ELEMNAME_PARAM == parentTok ||
+             StylesheetConstructionContext::ELEMNAME_WITH_PARAM == parentTok))
+        {
+            const XalanDOMChar  theEmptyString = 0;
+
+            appendChildElementToParent(
+                parent,
+                m_constructionContext.createElement(
+                    m_stylesheet,
+                    &theEmptyString,
+                    0,
+                    true,
+                    false,
+                    m_constructionContext.getLocatorFromStack()));
+        }
+    }
 
     assert(m_inExtensionElementStack.empty() == false);
 
